@@ -2,11 +2,11 @@ import PngVerif.Proofs.ReaderPathsLoop
 /-!
 # Decoding paths, part 3: readers that differ only in `scratchLen` / `cached` behave alike (C13)
 
-`Sim b r r'`: `r'` is `r` with another scratch length and — when `b` holds — possibly another cached
+`PSim b r r'`: `r'` is `r` with another scratch length and — when `b` holds — possibly another cached
 `Info` for the row transformation.  With `b := False` the relation needs no assumption; with
 `b := True` it needs the contract `TCfg.SnapIndep` (the transformation does not depend on WHICH `Info`
 of the stream it was created from).  Every call of the model maps related readers to related readers
-and returns the same result (`SimRes`): `step_sim`, `run_sim`.
+and returns the same result (`SimRes`): `step_psim`, `run_psim`.
 -/
 namespace Png.Reader
 open Png Png.Framing
@@ -21,15 +21,15 @@ structure TCfg.SnapIndep (t : TCfg) : Prop where
     t.create snap' f = .ok () → t.apply snap f cur row n = t.apply snap' f cur row n
 
 /-- same reader up to the scratch length and (if `b`) the `Info` the transformation was created from -/
-def Sim (b : Prop) (r r' : R) : Prop := ∃ s c, r' = r.setSC s c ∧ (c = r.cached ∨ b)
+def PSim (b : Prop) (r r' : R) : Prop := ∃ s c, r' = r.setSC s c ∧ (c = r.cached ∨ b)
 
-theorem Sim.refl (b : Prop) (r : R) : Sim b r r := ⟨r.scratchLen, r.cached, rfl, Or.inl rfl⟩
+theorem PSim.refl (b : Prop) (r : R) : PSim b r r := ⟨r.scratchLen, r.cached, rfl, Or.inl rfl⟩
 
-theorem Sim.symm {b : Prop} {r r' : R} (h : Sim b r r') : Sim b r' r := by
+theorem PSim.symm {b : Prop} {r r' : R} (h : PSim b r r') : PSim b r' r := by
   obtain ⟨s, c, rfl, hc⟩ := h
   exact ⟨r.scratchLen, r.cached, rfl, hc.imp (fun h => h.symm) id⟩
 
-theorem Sim.trans {b : Prop} {a c d : R} (h1 : Sim b a c) (h2 : Sim b c d) : Sim b a d := by
+theorem PSim.trans {b : Prop} {a c d : R} (h1 : PSim b a c) (h2 : PSim b c d) : PSim b a d := by
   obtain ⟨s, x, rfl, hx⟩ := h1
   obtain ⟨s', y, rfl, hy⟩ := h2
   refine ⟨s', y, rfl, ?_⟩
@@ -39,30 +39,30 @@ theorem Sim.trans {b : Prop} {a c d : R} (h1 : Sim b a c) (h2 : Sim b c d) : Sim
     · exact Or.inr hx
   · exact Or.inr hy
 
-theorem Sim.mono {b b' : Prop} {r r' : R} (h : Sim b r r') (hb : b → b') : Sim b' r r' := by
+theorem PSim.mono {b b' : Prop} {r r' : R} (h : PSim b r r') (hb : b → b') : PSim b' r r' := by
   obtain ⟨s, c, e, hc⟩ := h
   exact ⟨s, c, e, hc.imp id hb⟩
 
-theorem Sim.scratch {b : Prop} (r : R) (n : Nat) : Sim b r { r with scratchLen := n } := ⟨n, r.cached, rfl, Or.inl rfl⟩
+theorem PSim.scratch {b : Prop} (r : R) (n : Nat) : PSim b r { r with scratchLen := n } := ⟨n, r.cached, rfl, Or.inl rfl⟩
 
-theorem Sim.keep {b : Prop} {r r' : R} (h : Sim b r r') : Keep r r' := by
+theorem PSim.keep {b : Prop} {r r' : R} (h : PSim b r r') : Keep r r' := by
   obtain ⟨s, c, rfl, _⟩ := h; exact ⟨rfl, rfl, rfl, rfl, rfl, rfl, rfl⟩
 
-theorem Sim.sub {b : Prop} {r r' : R} (h : Sim b r r') : r'.sub = r.sub := by obtain ⟨s, c, rfl, _⟩ := h; rfl
-theorem Sim.ub {b : Prop} {r r' : R} (h : Sim b r r') : r'.ub = r.ub := by obtain ⟨s, c, rfl, _⟩ := h; rfl
-theorem Sim.remaining {b : Prop} {r r' : R} (h : Sim b r r') : r'.remaining = r.remaining := by
+theorem PSim.sub {b : Prop} {r r' : R} (h : PSim b r r') : r'.sub = r.sub := by obtain ⟨s, c, rfl, _⟩ := h; rfl
+theorem PSim.ub {b : Prop} {r r' : R} (h : PSim b r r') : r'.ub = r.ub := by obtain ⟨s, c, rfl, _⟩ := h; rfl
+theorem PSim.remaining {b : Prop} {r r' : R} (h : PSim b r r') : r'.remaining = r.remaining := by
   obtain ⟨s, c, rfl, _⟩ := h; rfl
-theorem Sim.pending {b : Prop} {r r' : R} (h : Sim b r r') : r'.pendingBuf = r.pendingBuf := by
+theorem PSim.pending {b : Prop} {r r' : R} (h : PSim b r r') : r'.pendingBuf = r.pendingBuf := by
   obtain ⟨s, c, rfl, _⟩ := h; rfl
-theorem Sim.stream {b : Prop} {r r' : R} (h : Sim b r r') : SameStream r r' := by
+theorem PSim.stream {b : Prop} {r r' : R} (h : PSim b r r') : SameStream r r' := by
   obtain ⟨s, c, rfl, _⟩ := h; exact ⟨rfl, rfl, rfl, rfl⟩
-theorem Sim.cached {r r' : R} (h : Sim False r r') : r'.cached = r.cached := by
+theorem PSim.cached {r r' : R} (h : PSim False r r') : r'.cached = r.cached := by
   obtain ⟨s, c, rfl, hc⟩ := h; exact hc.elim id False.elim
 
 /-- related readers and equal results -/
-def SimRes {α : Type} (b : Prop) (x x' : R × α) : Prop := Sim b x.1 x'.1 ∧ x'.2 = x.2
+def SimRes {α : Type} (b : Prop) (x x' : R × α) : Prop := PSim b x.1 x'.1 ∧ x'.2 = x.2
 
-theorem SimRes.refl {α : Type} (b : Prop) (x : R × α) : SimRes b x x := ⟨Sim.refl b _, rfl⟩
+theorem SimRes.refl {α : Type} (b : Prop) (x : R × α) : SimRes b x x := ⟨PSim.refl b _, rfl⟩
 theorem SimRes.symm {α : Type} {b : Prop} {x y : R × α} (h : SimRes b x y) : SimRes b y x := ⟨h.1.symm, h.2.symm⟩
 theorem SimRes.trans {α : Type} {b : Prop} {x y z : R × α} (h1 : SimRes b x y) (h2 : SimRes b y z) : SimRes b x z :=
   ⟨h1.1.trans h2.1, h2.2.trans h1.2⟩
@@ -70,7 +70,7 @@ theorem SimRes.trans {α : Type} {b : Prop} {x y z : R × α} (h1 : SimRes b x y
 /-- a function that commutes with `setSC` and keeps `cached` maps related readers to related results -/
 theorem simRes_of_comm {α : Type} {b : Prop} (f : R → R × α)
     (hf : ∀ r s c, f (r.setSC s c) = mapFst (fun r => r.setSC s c) (f r)) (hc : ∀ r, (f r).1.cached = r.cached)
-    {r r' : R} (h : Sim b r r') : SimRes b (f r) (f r') := by
+    {r r' : R} (h : PSim b r r') : SimRes b (f r) (f r') := by
   obtain ⟨s, c, rfl, hx⟩ := h
   rw [hf]
   exact ⟨⟨s, c, rfl, hx.imp (fun h => h.trans (hc r).symm) id⟩, rfl⟩
@@ -155,7 +155,7 @@ theorem rowImplPost_sim {t : TCfg} {b : Prop} (hb : b → t.SnapIndep) (rowlen o
     (x : Except Res Unit) (s : Nat) (c : Option Info) (hc : c = r1.cached ∨ b) (h1 : CachedOk t r1)
     (h2 : CachedOk t (r1.setSC s c)) :
     SimRes b (rowImplPost t rowlen outLen (r1, x)) (rowImplPost t rowlen outLen (r1.setSC s c, x)) := by
-  have hsame : Sim b r1 (r1.setSC s c) := ⟨s, c, rfl, hc⟩
+  have hsame : PSim b r1 (r1.setSC s c) := ⟨s, c, rfl, hc⟩
   cases x with
   | error e => exact ⟨hsame, rfl⟩
   | ok u =>
@@ -182,7 +182,7 @@ theorem rowImplPost_sim {t : TCfg} {b : Prop} (hb : b → t.SnapIndep) (rowlen o
 
 /-- **`next_interlaced_row_impl` on related readers** -/
 theorem nextRowImpl_sim (cfg : Cfg) {t : TCfg} {b : Prop} (hb : b → t.SnapIndep) {r r' : R} {i : Info} {ii : IInfo}
-    (outLen : Nat) (h : Sim b r r') (hP : RowPre t r i ii) (hI' : Inv t r') :
+    (outLen : Nat) (h : PSim b r r') (hP : RowPre t r i ii) (hI' : Inv t r') :
     SimRes b (nextRowImpl cfg t r (rowlenOf i.color i.depth r.sub ii) outLen)
       (nextRowImpl cfg t r' (rowlenOf i.color i.depth r.sub ii) outLen) := by
   obtain ⟨s, c, rfl, hc⟩ := h
@@ -250,7 +250,7 @@ theorem finishDecoding_cached (cfg : Cfg) (r : R) : (finishDecoding cfg r).1.cac
 
 /-- **`read_row` on related readers** (any buffer that holds a row of the (sub)frame) -/
 theorem readRow_sim (cfg : Cfg) {t : TCfg} (ht : t.Ok) {b : Prop} (hb : b → t.SnapIndep) {r r' : R} {i : Info}
-    (bufLen : Nat) (h : Sim b r r') (hI : Inv t r) (hI' : Inv t r') (hi : r.dec.info = some i)
+    (bufLen : Nat) (h : PSim b r r') (hI : Inv t r) (hI' : Inv t r') (hi : r.dec.info = some i)
     (hbuf : outLineSize t i r.flags r.sub.width ≤ bufLen) :
     SimRes b (readRow cfg t r bufLen) (readRow cfg t r' bufLen) := by
   cases hcur : r.sub.cur with
@@ -275,7 +275,7 @@ theorem readRow_sim (cfg : Cfg) {t : TCfg} (ht : t.Ok) {b : Prop} (hb : b → t.
       readRow_row cfg ht bufLen hI' (hK.info.trans hi) hcur' (by rw [hK.flags, h.sub]; exact hbuf), hK.flags, h.sub]
     have hP := rowStart_pre hI hi hcur
     have hP' := rowStart_pre hI' (hK.info.trans hi) hcur'
-    have hs : Sim b (rowStart r ii) (rowStart r' ii) := by
+    have hs : PSim b (rowStart r ii) (rowStart r' ii) := by
       obtain ⟨s, c, rfl, hc⟩ := h
       rw [rowStart_setSC]
       exact ⟨s, c, rfl, hc.imp (fun h => h.trans (rowStart_cached r ii).symm) id⟩
@@ -296,7 +296,7 @@ theorem readRow_sim (cfg : Cfg) {t : TCfg} (ht : t.Ok) {b : Prop} (hb : b → t.
 
 /-- **`next_row` / `next_interlaced_row` on related readers** -/
 theorem nextInterlacedRow_sim (cfg : Cfg) {t : TCfg} (ht : t.Ok) {b : Prop} (hb : b → t.SnapIndep) {r r' : R}
-    (h : Sim b r r') (hI : Inv t r) (hI' : Inv t r') :
+    (h : PSim b r r') (hI : Inv t r) (hI' : Inv t r') :
     SimRes b (nextInterlacedRow cfg t r) (nextInterlacedRow cfg t r') := by
   obtain ⟨i, hi, _⟩ := hI.info
   obtain ⟨s, c, rfl, hc⟩ := h
@@ -326,6 +326,6 @@ theorem readRow_eq_nextRow (cfg : Cfg) {t : TCfg} (ht : t.Ok) {r : R} {i : Info}
     | some ii =>
       rw [readRow_row cfg ht _ hI hi hcur (Nat.le_refl _), readRow_row cfg ht n hI hi hcur hn]
       exact SimRes.refl _ _
-  exact (readRow_sim cfg ht (b := False) False.elim _ (Sim.scratch r _).symm hI0 hI hi (Nat.le_refl _)).trans (key bufLen hbuf)
+  exact (readRow_sim cfg ht (b := False) False.elim _ (PSim.scratch r _).symm hI0 hI hi (Nat.le_refl _)).trans (key bufLen hbuf)
 
 end Png.Reader
